@@ -224,7 +224,7 @@ tpt_msg_one_by_one_proxy_cb(tpt_p tpt, void *udata) {
 		return;
 	/* All except caller thread done / error. */
 	if (0 == ((TP_BMSG_F_SELF_SKIP | TP_MSG_F_SELF_DIRECT) & msg_data->flags) &&
-	    tpt_get_tp(msg_data->tpt) == tpt_get_tp(tpt) && /* Thread from other pool is not a target. */
+	    tp_thread_get(tpt_get_tp(tpt), tpt_get_num(msg_data->tpt)) == msg_data->tpt && /* Thread from other pool / pvt is not a target. */
 	    msg_data->tpt != tpt) { /* Try shedule caller thread. */
 		msg_data->cur_thr_idx = tp_thread_count_max_get(tpt_get_tp(tpt));
 		msg_data->send_msg_cnt ++;
@@ -387,6 +387,7 @@ tpt_msg_bsend_ex(tp_p tp, tpt_p src, uint32_t flags,
 	tpt_msg_data_p msg_data = NULL;
 	tpt_msg_data_t msg_data_s;
 	struct timespec rqts;
+	tpt_p cur;
 
 	msg_data_s.send_msg_cnt = 0;
 	msg_data_s.error_cnt = 0;
@@ -426,6 +427,23 @@ tpt_msg_bsend_ex(tp_p tp, tpt_p src, uint32_t flags,
 	}
 	/* Multithread. */
 	if (0 != (TP_BMSG_F_SYNC & flags)) {
+		/* The waiting thread is the calling one whatever src is declared
+		 * (pvt from event callback, other worker): it cant wait for
+		 * message in own queue. */
+		cur = tpt_get_current();
+		if (NULL != cur && cur != src &&
+		    tp_thread_get(tp, tpt_get_num(cur)) == cur) {
+			if (0 != (TP_BMSG_F_SELF_SKIP & flags)) {
+				if (NULL != src &&
+				    tp_thread_get(tp, tpt_get_num(src)) == src) {
+					/* Skip other worker and serve self: one src only. */
+					error = EINVAL;
+					goto err_out;
+				}
+				flags &= ~((uint32_t)TP_BMSG_F_SELF_SKIP); /* src is not a target: nobody to skip. */
+			}
+			src = cur;
+		}
 		/* Caller cant wait for message in own queue: call directly. */
 		if (NULL != src &&
 		    src == tpt_get_current() &&
@@ -548,7 +566,7 @@ tpt_msg_cbsend(tp_p tp, tpt_p src, uint32_t flags,
 
 	if (0 != (TP_CBMSG_F_ONE_BY_ONE & flags)) {
 		if (TP_MSG_F_SELF_DIRECT == ((TP_BMSG_F_SELF_SKIP | TP_MSG_F_SELF_DIRECT) & flags) &&
-		    tpt_get_tp(src) == tp) { /* Thread from other pool is not a target. */
+		    tp_thread_get(tp, tpt_get_num(src)) == src) { /* Thread from other pool / pvt is not a target. */
 			msg_data->send_msg_cnt ++;
 			msg_cb(src, udata);
 		}
@@ -556,14 +574,14 @@ tpt_msg_cbsend(tp_p tp, tpt_p src, uint32_t flags,
 			return (0); /* OK, sheduled. */
 		/* Nothing sheduled: nobody else will free msg_data. */
 		if (TP_MSG_F_SELF_DIRECT == ((TP_BMSG_F_SELF_SKIP | TP_MSG_F_SELF_DIRECT) & flags) &&
-		    tpt_get_tp(src) == tp) { /* Thread from other pool is not a target. */
+		    tp_thread_get(tp, tpt_get_num(src)) == src) { /* Thread from other pool / pvt is not a target. */
 			done_cb(src, msg_data->send_msg_cnt,
 			    msg_data->error_cnt, udata);
 			free(msg_data);
 			return (0);
 		}
 		if (0 == ((TP_BMSG_F_SELF_SKIP | TP_MSG_F_SELF_DIRECT) & flags) &&
-		    tpt_get_tp(src) == tp) { /* Try shedule caller thread. */
+		    tp_thread_get(tp, tpt_get_num(src)) == src) { /* Try shedule caller thread (not other pool / pvt). */
 			msg_data->cur_thr_idx = threads_max;
 			msg_data->send_msg_cnt ++;
 			if (0 == tpt_msg_send(src, src, flags,
